@@ -75,7 +75,7 @@ def validate_exec_traces(ctx, execs, invs, name=None):
     bound = {"C09": {"OnDone", "Build", "ExReturn", "BodyStart"}, "C10": {"Ckpt", "BodyEnd", "ParentCkpt"},
              "C01": {"Ckpt", "BodyStart", "BodyEnd"}, "C04": {"Ckpt", "BodyStart"}, "C12": {"Ckpt", "BodyEnd", "Resubmit"},
              "C14": {"Ckpt", "BodyEnd"}, "C02": {"Build", "Ckpt"}, "C16": {"Build", "Ckpt"},
-             "C07": {"EvSet", "ExReturn", "Resubmit", "Refresh", "BodyStart"}, "C06": {"EvSet", "ExReturn", "BodyEnd", "Refresh"}, "C08": set()}
+             "C07": {"EvSet", "ExReturn", "Resubmit", "Refresh", "BodyStart", "BodyEnd"}, "C06": {"EvSet", "ExReturn", "BodyEnd", "Refresh"}, "C08": set()}
 
     def classify(trace, scen, reached):
         evs = trace["evs"]
